@@ -36,10 +36,26 @@ def run_kani_units(pid, tier, units, seed, ev, outcome):
             res = results.get(h)
             status, tags, notes = K.classify(res, must_cover=u.get("must_cover", ()))
             tags, other = props.split_scope(pid, h, tags)
-            if other:
-                notes = list(notes) + ["failed obligations of other properties (not counted here): " + ",".join(other)]
-                if status == "fail" and not tags:
-                    status = "pass"
+            rounds = 0
+            while status == "fail" and other and not tags and rounds < 4:
+                # only obligations of OTHER properties failed. Kani assumes an assertion after checking it, so they may hide
+                # this property's own obligations: re-decide the harness with those obligations compiled out.
+                rounds += 1
+                skipped = sorted(set(u.get("_skipped", [])) | set(other))
+                u["_skipped"] = skipped
+                log("[K] %s: only out-of-scope obligations failed (%s); re-deciding without them" % (h, ",".join(other)))
+                r2, m2 = K.run_harnesses(pid, [h], feats, jobs=1, timeout_s=u.get("timeout_s", 2400) + 120, harness_timeout_s=u.get("timeout_s", 2400),
+                                         mem_gb=u.get("mem_gb", 20), tag="rescope" + ("-" + "_".join(feats) if feats else ""), skip_tags=skipped)
+                ev["kani_runs"].append({k: m2[k] for k in ("rc", "wall_s", "cmd")})
+                res = r2.get(h)
+                status, tags, notes = K.classify(res, must_cover=u.get("must_cover", ()))
+                tags, other = props.split_scope(pid, h, tags)
+            if u.get("_skipped"):
+                notes = list(notes) + ["failed obligations of other properties (compiled out and not counted here): " + ",".join(u["_skipped"])]
+                other = u["_skipped"]
+            if other and status == "fail" and not tags:
+                status = "inconclusive"
+                notes = list(notes) + ["out-of-scope obligations keep failing after 4 rounds"]
             rec = {"engine": "K", "unit": h, "status": status, "what": u.get("what", ""), "bounds": u.get("bounds", ""),
                    "checks": res["checks"] if res else 0, "discharged": res["success"] + res["unreachable"] if res else 0,
                    "covers": res["covers"] if res else {}, "solver_time_s": res["time_s"] if res else None,
@@ -97,7 +113,7 @@ def handle_failure(pid, u, tags, feats, known, rec, outcome):
                 outcome["known"].append((known_match(known, pid, "%s::%s" % (short, t)), stored))
             return
     log("[K] %s FAILED tags=%s -> concrete playback + native replay" % (h, tags))
-    scripts, tail = K.concrete_values(pid, h, feats)
+    scripts, tail = K.concrete_values(pid, h, feats, skip_tags=u.get("_skipped", ()))
     rec["replays"] = []
     repro_tags, path_used = set(), None
     nrep = 0
@@ -137,6 +153,7 @@ def handle_failure(pid, u, tags, feats, known, rec, outcome):
         scripts = None
         repro_tags = set(hit)
         path_used = path
+    repro_tags = set(props.split_scope(pid, h, sorted(repro_tags))[0])   # natively every failing obligation is recorded: keep this property's
     if not repro_tags:
         outcome["inconclusive"].append("%s: Kani counterexample did not reproduce natively (encoding/stub issue?)" % h)
         return
